@@ -485,6 +485,76 @@ def shift_rules(repo, rep):
         rep.violated('R-GUARD', key, w, 'ntv2_2d does not raise when the position is outside every sub-grid', expected='if shifts[0] is None: raise', actual='absent')
 
 
+def order_rules(repo, rep):
+    """the offset of a sub-grid's nodes is accumulated over the sub-grids that PRECEDE it in the container (`for sg in grid.subgrids.values():
+    skip += ...`): that is their position in the file only while the container keeps the order in which the parser met them.  Who-may-write
+    rule over the whole package: the container is created empty by the grid class, filled by `grid.subgrids[name] = SubGrid(...)` inside the
+    parser's read loop, and never rebound, re-ordered, or shrunk anywhere else (a rebinding to a sorted / filtered copy, pop, clear,
+    update, del, move-to-end)."""
+    writers = []
+    n_reads = 0
+    for m in repo.modules.values():
+        for f in m.all_functions():
+            for n in ast.walk(f.node):
+                tgt = None
+                if isinstance(n, (ast.Assign, ast.AugAssign, ast.AnnAssign)):
+                    tgts = n.targets if isinstance(n, ast.Assign) else [n.target]
+                    for t in tgts:
+                        for x in ([t] if not isinstance(t, (ast.Tuple, ast.List)) else t.elts):
+                            if isinstance(x, ast.Attribute) and x.attr == 'subgrids':
+                                writers.append(('rebind', f, n))
+                            elif isinstance(x, ast.Subscript) and isinstance(x.value, ast.Attribute) and x.value.attr == 'subgrids':
+                                writers.append(('insert', f, n))
+                elif isinstance(n, ast.Delete):
+                    for x in n.targets:
+                        if (isinstance(x, ast.Attribute) and x.attr == 'subgrids') or (isinstance(x, ast.Subscript) and isinstance(x.value, ast.Attribute) and x.value.attr == 'subgrids'):
+                            writers.append(('delete', f, n))
+                elif isinstance(n, ast.Call) and isinstance(n.func, ast.Attribute) and isinstance(n.func.value, ast.Attribute) and n.func.value.attr == 'subgrids':
+                    if n.func.attr in ('pop', 'popitem', 'clear', 'update', 'setdefault', 'move_to_end', '__setitem__', '__delitem__'):
+                        writers.append(('mutate:' + n.func.attr, f, n))
+                    else:
+                        n_reads += 1
+                elif isinstance(n, ast.Call) and any(isinstance(a, ast.Attribute) and a.attr == 'subgrids' for a in n.args) and getattr(n.func, 'id', '') == 'setattr':
+                    writers.append(('setattr', f, n))
+    key0 = 'R-OWNER::geodepy/ntv2reader.py::subgrids::'
+    n_ok = 0
+    seen = {}
+    for kind, f, n in writers:
+        k = key0 + '%s::%s' % (f.qualname, kind)
+        seen[k] = seen.get(k, 0) + 1
+        if seen[k] > 1:
+            k += '#%d' % seen[k]
+        if kind == 'rebind' and f.name == '__init__' and isinstance(n, ast.Assign) and isinstance(n.value, ast.Dict) and not n.value.keys:
+            rep.holds('R-OWNER', k, where(f, n), 'the container is created empty by the grid object')
+            n_ok += 1
+        elif kind == 'insert' and f.qualname == 'read_ntv2_file' and any(isinstance(a, (ast.For, ast.While)) and any(x is n for x in ast.walk(a)) for a in ast.walk(f.node)):
+            rep.holds('R-OWNER', k, where(f, n), 'sub-grids are entered one by one inside the parser\'s read loop: insertion order is file order')
+            n_ok += 1
+        else:
+            rep.violated('R-OWNER', k, where(f, n), '`%s` %s the sub-grid container outside the parser\'s read loop: interpolate_ntv2 accumulates the byte offset of a sub-grid over the '
+                         'sub-grids that precede it in this container, so its order must stay the order of the file - after this statement the nodes of a multi-sub-grid file are '
+                         'read from another sub-grid\'s bytes' % (stmt_text(n)[:70], {'rebind': 'rebinds', 'insert': 'inserts into', 'delete': 'deletes from', 'setattr': 'rebinds'}.get(kind, 'mutates')),
+                         expected='container filled only by `grid.subgrids[name] = SubGrid(...)` in the read loop', actual=stmt_text(n)[:100])
+    if n_ok < 2:
+        rep.undecided('R-OWNER', key0 + 'writers', 'geodepy/ntv2reader.py:1', 'creation and filling of the sub-grid container not recognised (%d of 2)' % n_ok)
+    # the loop that accumulates the offset walks the container itself (not a sorted / reversed / filtered view of it)
+    f = repo.func('geodepy.ntv2reader', 'interpolate_ntv2')
+    key = key0 + 'interpolate_ntv2::offset-loop-order'
+    loops = [lp for lp in ast.walk(f.node) if isinstance(lp, ast.For) and any(isinstance(x, ast.AugAssign) for x in ast.walk(lp)) and 'subgrids' in stmt_text(lp.iter)]
+    if not loops:
+        rep.undecided('R-OWNER', key, where(f, f.node), 'offset loop over the sub-grids not found')
+    for lp in loops:
+        it = lp.iter
+        plain = isinstance(it, ast.Call) and isinstance(it.func, ast.Attribute) and it.func.attr in ('values', 'items') and isinstance(it.func.value, ast.Attribute) \
+            and it.func.value.attr == 'subgrids' and not it.args
+        plain = plain or (isinstance(it, ast.Attribute) and it.attr == 'subgrids')
+        if plain:
+            rep.holds('R-OWNER', key, where(f, lp), 'the offset is accumulated over `%s`: the container in insertion (= file) order' % stmt_text(it))
+        else:
+            rep.violated('R-OWNER', key, where(f, lp), 'the offset is accumulated over `%s`, which is not the container in file order' % stmt_text(it)[:80],
+                         expected='for sg in grid.subgrids.values()', actual=stmt_text(it)[:80])
+
+
 def run(repo, rep):
     alg.reset()
     rep.trust('file model: seek(n, 1) advances, read(n) advances and yields the bytes at that offset; struct/int.from_bytes decoders are opaque but named')
@@ -495,6 +565,7 @@ def run(repo, rep):
     interp_rules(repo, rep)
     selection_rules(repo, rep)
     shift_rules(repo, rep)
+    order_rules(repo, rep)
     # a grid object owns its sub-grids: no container shared between grids through a default argument
     from . import common
     common.mutable_default_rule(repo, rep, ['geodepy.ntv2reader'])
